@@ -3,7 +3,7 @@
 cd /verif
 for d in seeded/*/; do
   n=$(basename $d)
-  p=$(python3 -c "import json;print(json.load(open('$d/meta.json'))['property'])")
+  p=$(python3 -c "import json;m=json.load(open('$d/meta.json'));print(m.get('checked_under',m['property']))")
   r=$(tools/try_seed.sh $n $p quick 0 2>&1 | tail -1)
   echo "$n $p $r"
 done
